@@ -11,6 +11,9 @@ import (
 func c09Run(c c04Case) Outcome {
 	var o Outcome
 	res := inBubble(theT, func() { o = c04RunInBubble(c, true) })
+	if o, stuck := stuckVerdict(res); stuck {
+		return o
+	}
 	if res.Panic != "" {
 		return viol("panic@"+topFrame(res.Stack), "%s\n%s", res.Panic, res.Stack)
 	}
